@@ -140,8 +140,17 @@ def run(ctx):
                else "node_edges filters edges by an additional condition at %s: some incident edges (and their values) would "
                "survive the removal of the node" % bad, b.where)
 
-    # R08e: a freed slot is fully reset, so an element reusing the id inherits nothing: every per-slot setter of
-    # GraphData is applied to the freed (or to the reused) index
+    slot_reset_rule(ctx)
+
+    # R08d
+    r08d(ctx)
+    return 0
+
+
+def slot_reset_rule(ctx):
+    """R08e: a freed slot is fully reset, so an element reusing the id inherits nothing: every per-slot setter of
+    GraphData is applied to the freed index (also evaluated by C14: traversals read these links)."""
+    fa = ctx.facts
     setters = sorted(f["name"] for p, f in fa.fns.items() if f.get("trait_decl") == "agdb::graph::GraphData" and
                      f["name"].startswith("set_") and len(f["inputs"]) == 4 and "GraphIndex" in f["inputs"][2])
     fb, gb = fa.body(G + "free_index"), fa.body(G + "get_free_index")
@@ -161,7 +170,9 @@ def run(ctx):
                fb.where)
         ctx.floor("R08e", "per-slot setters of GraphData", len(setters), 4)
 
-    # R08d
+
+def r08d(ctx):
+    fa = ctx.facts
     b = ctx.anchor("R08d", DB + "graph_index")
     if b:
         ok = False
